@@ -38,7 +38,10 @@ def _case(draw, tier):
             "tol": draw(st.sampled_from([1e-1, 1e-2, 1e-3])),
             # a fixed initial condition (only the SDE is trained) is a distinct autograd situation: the state entering
             # the first step carries no graph
-            "y0_grad": draw(st.sampled_from([True, True, False]))}
+            "y0_grad": draw(st.sampled_from([True, True, False])),
+            # frozen parameters (requires_grad=False): all of the drift's, all of the diffusion's, or a drawn subset - the
+            # tensors entering a step then carry a graph in some places only
+            "frozen": draw(st.sampled_from([None, None, "drift", "diffusion", "subset"]))}
 
 
 def strategy(tier):
@@ -61,7 +64,8 @@ def enumerate_cases(tier):
             yield {"spec": spec, "combo": combo, "time": {"t0": 0.1, "t1": 0.1 + 0.3 * rnd.choice([2, 3]), "dt": 0.3,
                                                           "tdtype": "float64"},
                    "adaptive": False, "outs": [0.5], "entropy": rnd.randrange(2 ** 31 - 2),
-                   "wseed": rnd.randrange(2 ** 31), "tol": 1e-2, "y0_grad": y0_grad}
+                   "wseed": rnd.randrange(2 ** 31), "tol": 1e-2, "y0_grad": y0_grad,
+                   "frozen": [None, "drift", "diffusion"][(idx + (0 if y0_grad else 1)) % 3]}
 
 
 def run_case(case):
@@ -78,6 +82,18 @@ def run_case(case):
     y0_grad = case.get("y0_grad", True)
     dir_y = torch.randn(spec["batch"], spec["d"], generator=gen, dtype=torch.float64) * (1.0 if y0_grad else 0.0)
     dir_p = [torch.randn(p.shape, generator=gen, dtype=torch.float64) for p in sde0.parameters()]
+    frozen_kind = case.get("frozen")
+
+    def is_frozen(k, name):
+        if frozen_kind == "drift":
+            return name.startswith(("f", "h"))
+        if frozen_kind == "diffusion":
+            return name.startswith(("g", "G"))
+        if frozen_kind == "subset":
+            return (case["wseed"] >> (k % 20)) & 1 == 1
+        return False
+    frozen = [is_frozen(k, n) for k, n in enumerate(names)]
+    dir_p = [d * 0.0 if fz else d for d, fz in zip(dir_p, frozen)]
     w = None
     kw = {}
     if case["adaptive"]:
@@ -91,6 +107,9 @@ def run_case(case):
         with torch.no_grad():
             for p, dp in zip(sde.parameters(), dir_p):
                 p.add_(shift * dp)
+        for p, fz in zip(sde.parameters(), frozen):
+            if fz:
+                p.requires_grad_(False)
         y0 = (sdes.y0_for(spec) + shift * dir_y).requires_grad_(need_grad and y0_grad)
         bm = sdes.make_bm(torchsde, spec, ts[0], ts[-1], case["entropy"], levy=combo["levy"])
         real = adaptive_stepping.compute_error
@@ -111,10 +130,13 @@ def run_case(case):
                 w = torch.randn(ys.shape, generator=gen, dtype=torch.float64)
             loss = (ys * w).sum()
         if need_grad:
-            inputs = ([y0] if y0_grad else []) + list(sde.parameters())
-            grads = torch.autograd.grad(loss, inputs, allow_unused=True)
-            if not y0_grad:
-                grads = (None,) + tuple(grads)
+            live = [p for p, fz in zip(sde.parameters(), frozen) if not fz]
+            inputs = ([y0] if y0_grad else []) + live
+            if not inputs or not loss.requires_grad:
+                return loss.detach(), (None,) * (1 + len(frozen))
+            got = list(torch.autograd.grad(loss, inputs, allow_unused=True))
+            gy = got.pop(0) if y0_grad else None
+            grads = (gy,) + tuple(None if fz else got.pop(0) for fz in frozen)
             return loss.detach(), grads
         return loss, None
 
@@ -142,7 +164,7 @@ def run_case(case):
     e = abs(an - fd) / max(abs(fd), floor, 1e-300)
     steps = (tm["t1"] - tm["t0"]) / tm["dt"]
     labels = [solve.combo_label(combo), "adaptive" if case["adaptive"] else "fixed",
-              "y0_requires_grad" if y0_grad else "y0_fixed"]
+              "y0_requires_grad" if y0_grad else "y0_fixed"] + ([f"frozen={frozen_kind}"] if frozen_kind else [])
     if case["adaptive"]:
         labels.append(f"trials={'>=10' if len(record) >= 10 else '<10'}")
     fail = None
@@ -150,5 +172,9 @@ def run_case(case):
         fail = Fail("backprop_vs_finite_difference",
                     f"directional derivative by backprop {an:.10g} vs central difference {fd:.10g} (rel {e:.3e}) for "
                     f"{solve.combo_label(combo)} ({'adaptive' if case['adaptive'] else 'fixed'} steps)", sig)
+    if frozen_kind == "drift":
+        nz["f"] = True
+    if frozen_kind == "diffusion":
+        nz["g"] = True
     return Result(nontrivial=steps >= 3 and nz["f"] and nz["g"], labels=labels, checks=1, fail=fail,
                   metrics={"relerr": e})
